@@ -78,7 +78,42 @@ def make_user_costs():
         def _evaluate_optim_param(self, starts, ends):
             return np.asarray([self._Xa[s:e].max(axis=0) - self._Xa[s:e].min(axis=0) for s, e in zip(starts, ends)])
 
-    return NScaledL2, RangeCost
+    from skchange.costs import L2Cost as _L2
+
+    class TripleL2(_L2):
+        """user subclass of the built-in L2Cost that reuses its fit but scales the evaluation (3 x squared error)"""
+
+        def _evaluate_optim_param(self, starts, ends):
+            return 3.0 * super()._evaluate_optim_param(starts, ends)
+
+        def _evaluate_fixed_param(self, starts, ends):
+            return 3.0 * super()._evaluate_fixed_param(starts, ends)
+
+    class AbsDevCost(BaseCost):
+        """sum of absolute deviations from the (lower) median per column; reads the documented attribute self._X at evaluation time"""
+
+        def __init__(self, param=None):
+            super().__init__(param)
+
+        @property
+        def min_size(self):
+            return 1
+
+        def _fit(self, X, y=None):
+            return self
+
+        def _evaluate_optim_param(self, starts, ends):
+            Xa = np.asarray(self._X, dtype=float)
+            if Xa.ndim == 1:
+                Xa = Xa.reshape(-1, 1)
+            out = []
+            for s, e in zip(starts, ends):
+                seg = np.sort(Xa[s:e], axis=0)
+                med = seg[(len(seg) - 1) // 2]
+                out.append(np.abs(Xa[s:e] - med).sum(axis=0))
+            return np.asarray(out)
+
+    return NScaledL2, RangeCost, TripleL2, AbsDevCost
 
 
 def nl2(x, theta=None):
@@ -95,13 +130,20 @@ def rng_cost(x, theta=None):
     return max(x) - min(x)
 
 
+def absdev(x, theta=None):
+    x = sorted(int(v) for v in x)
+    med = x[(len(x) - 1) // 2]
+    return sum(abs(v - med) for v in x)
+
+
 def run(ctx):
     sys.path.insert(0, f"{VERIF}/translator")
     import py2coq
     from skchange.anomaly_scores import L2Saving, LocalAnomalyScore, Saving
     from skchange.change_scores import CUSUM, ChangeScore
     from skchange.costs import GaussianCovCost, GaussianVarCost, L2Cost
-    NScaledL2, RangeCost = make_user_costs()
+    NScaledL2, RangeCost, TripleL2, AbsDevCost = make_user_costs()
+    from skchange.anomaly_scores import to_saving
     rng = ctx.rng
     ad, ad_meta = [], []
 
@@ -110,7 +152,7 @@ def run(ctx):
         p = rng.choice([1, 2, 3])
         n = rng.randint(3, 14)
         X = np.asarray([[rng.randint(-6, 6) for _ in range(p)] for _ in range(n)], dtype=float)
-        for cname, mk, ref in [("NScaledL2", NScaledL2, nl2), ("RangeCost", RangeCost, rng_cost)]:
+        for cname, mk, ref in [("NScaledL2", NScaledL2, nl2), ("RangeCost", RangeCost, rng_cost), ("AbsDevCost", AbsDevCost, absdev)]:
             cs = ChangeScore(mk()).fit(X)
             las = LocalAnomalyScore(mk()).fit(X)
             for _ in range(3):
@@ -145,6 +187,19 @@ def run(ctx):
                     ad.append(f"(AdSaving {zlit(nl2(col[s:e], theta))} {zlit(nl2(col[s:e]))} {zlit(got[j])})")
                     ad_meta.append({"adapter": "Saving", "cost": f"NScaledL2({theta})", "X": X.tolist(), "cut": [s, e], "column": j, "impl": float(got[j])})
                 ctx.case({"ad": "sv", "X": X.tolist(), "cut": [s, e], "th": theta}, nontrivial=s > 0 or e < n)
+            # Saving / to_saving around a user SUBCLASS of the built-in L2Cost (baseline mean 0): 3 * (sum x)^2 / n, compared as n * value = 3 (sum x)^2
+            for conv in ("Saving", "to_saving"):
+                tl = TripleL2(param=0.0)
+                svt = (Saving(tl) if conv == "Saving" else to_saving(tl)).fit(X)
+                s = rng.randint(0, n - 1)
+                e = rng.randint(s + 1, n)
+                got = svt.evaluate(np.asarray([[s, e]]))[0]
+                for j in range(p):
+                    want_n = 3 * int(sum(X[s:e, j])) ** 2
+                    if abs(got[j] * (e - s) - want_n) > 1e-6 * (abs(want_n) + 1):
+                        ctx.violation(f"{conv}(user subclass of L2Cost, baseline 0) on [{s},{e}) column {j} = {got[j]}; the definition C_fixed - C_optimal of THAT cost "
+                                      f"is {want_n / (e - s)}", {"X": X.tolist(), "cut": [s, e], "adapter": conv}, {"what": "saving", "cost": "user-subclass-of-L2Cost"})
+                ctx.case({"ad": "triple", "X": X.tolist(), "cut": [s, e], "conv": conv}, nontrivial=True)
         ctx.count("stream", "user-cost adapters")
     bad = coq_bad_cases(ctx.cid, HEADER, "ad_case", "ad_ok", ad, shard=1500, tag="ad")
     for i in bad[:25]:
@@ -276,6 +331,20 @@ def run(ctx):
                     ctx.violation(f"{nm}({kind}) refitted on a second series returns {np.asarray(g).tolist()}, the definition on the series fitted last gives "
                                   f"{np.asarray(w).tolist()}", dict(inp0, X2=X2.tolist(), cost=kind, cuts=[[s, k, e], [s, e], [s, a, b, e]]),
                                   {"what": "refit", "adapter": nm, "cost": kind})
+        # ---- to_saving of an L2Cost whose baseline mean vector has some (not all) zero entries ----
+        if p >= 2:
+            mu = np.asarray([0.0] + [rng.choice([1.5, -2.0, 3.0]) for _ in range(p - 1)])
+            rng.shuffle(mu)
+            ts_ = to_saving(L2Cost(mu)).fit(X)
+            for _ in range(2):
+                s = rng.randint(0, n - 1)
+                e = rng.randint(s + 1, n)
+                g = ts_.evaluate(np.asarray([[s, e]]))[0]
+                w = direct.saving_direct("l2", mu, X, s, e)
+                ctx.case({"b": "to_saving", "X": X.tolist(), "mu": mu.tolist(), "cut": [s, e]}, nontrivial=True)
+                if not direct.close(g, w, scale=scale):
+                    ctx.violation(f"to_saving(L2Cost({mu.tolist()})) on {[s, e]} = {g.tolist()}, definition C_fixed - C_optimal = {np.asarray(w).tolist()}",
+                                  dict(inp0, baseline=mu.tolist(), cut=[s, e]), {"what": "saving", "cost": "l2-mixed-zero-mean"})
         # L2Saving vs Saving(L2Cost(0)) and the exact twin of l2_saving
         for _ in range(3):
             s = rng.randint(0, n - 1)
@@ -299,3 +368,23 @@ def run(ctx):
             ctx.violation(f"L2Saving: column {m['column']} of {m['cut']}: real value {m['value']} outside the bracket around the exact twin of l2_saving "
                           f"generated from the source, or twin differs from (sum)^2 / n", m, {"what": "twin", "kernel": "l2_saving"})
     sys.path.pop(0)
+    # ---- long series, cuts of a narrower integer dtype: the values must not depend on the dtype of the cuts array ----
+    for it in range(ctx.n(2, 8)):
+        n = 3000 + rng.randint(0, 500)
+        p = rng.choice([1, 2])
+        X = np.asarray([[rng.gauss(0, 1) + (2.0 if t > n // 3 else 0.0) for _ in range(p)] for t in range(n)])
+        cuts3 = np.asarray([[0, n // 3, n], [0, n // 2, n], [10, 1500, n - 7], [100, 160, 230]])
+        cuts2 = cuts3[:, [0, 2]]
+        for name, sc, cuts in [("CUSUM", CUSUM().fit(X), cuts3), ("ChangeScore(L2Cost)", ChangeScore(L2Cost()).fit(X), cuts3), ("L2Saving", L2Saving().fit(X), cuts2),
+                               ("L2Cost", L2Cost().fit(X), cuts2)]:
+            ref64 = sc.evaluate(cuts.astype(np.int64))
+            for dt in (np.int32, np.uint32):
+                got = sc.evaluate(cuts.astype(dt))
+                ctx.case({"long": name, "it": it, "dt": str(dt)}, nontrivial=True)
+                if not (np.all(np.isfinite(got)) and direct.close(got, ref64, scale=1.0)):
+                    ctx.violation(f"{name}: cuts of dtype {np.dtype(dt).name} on a series of {n} rows give {got.tolist()[:2]}..., the same cuts as int64 give "
+                                  f"{ref64.tolist()[:2]}...", {"n": n, "p": p, "cuts": cuts.tolist(), "dtype": np.dtype(dt).name}, {"what": "cuts-dtype", "scorer": name})
+        cu = CUSUM().fit(X).evaluate(cuts3) ** 2
+        l2 = ChangeScore(L2Cost()).fit(X).evaluate(cuts3)
+        if not direct.close(cu, l2, scale=float(np.sum(X ** 2))):
+            ctx.violation("CUSUM^2 differs from ChangeScore(L2Cost) on a long series", {"n": n, "cuts": cuts3.tolist()}, {"what": "cusum-vs-l2", "long": True})
